@@ -7,6 +7,12 @@ PROBES = os.path.join(VERIF, 'probes')
 
 
 def run_probes(prefix):
+    from core import point_at_repo
+    point_at_repo()
+    return _run_probes(prefix)
+
+
+def _run_probes(prefix):
     """returns {bin name: {'compiled': bool, 'codes': [...], 'messages': [...]}} for bins starting with prefix"""
     expect = json.load(open(os.path.join(PROBES, 'expect.json')))
     names = sorted(n for n in expect if n.startswith(prefix))
@@ -42,6 +48,12 @@ def run_probes(prefix):
 
 
 def run_probe_bins(prefix):
+    from core import point_at_repo
+    point_at_repo()
+    return _run_probe_bins(prefix)
+
+
+def _run_probe_bins(prefix):
     """`cargo build` the probe programs starting with prefix; run those expected to run.
     returns (expect, {name: {'compiled', 'codes', 'messages', 'ran', 'rc', 'stdout'}})"""
     expect = json.load(open(os.path.join(PROBES, 'expect.json')))
